@@ -5,6 +5,7 @@ Property theorems only (model: Model/ParserPools.lean; invariant: Lemmas/ParserP
 -/
 import VaxisModel.Model.ParserPools
 import VaxisModel.Lemmas.ParserPools
+import VaxisModel.Lemmas.ParserStale
 
 namespace VaxisModel.Props.C08Pools
 open VaxisModel.Model.ParserPools VaxisModel.Lemmas.ParserPools
@@ -278,5 +279,43 @@ example :
         (List.replicate 4 [PLabel.get none, .app 1 0, .push 8]).flatten ++ [.emit])).map
       (fun s => (s.delivered, pAllIntact s)) =
       some ([⟨⟨1, 5⟩, [[9, 9, 9, 9, 9, 9, 9], [1], [1], [1], [1]]⟩], true) := by decide
+
+/-! ### the stale length of a pooled slice is not observable
+
+`Get()` hands back a slice with the length it was `Put` with; the automaton model (Model/Parser.lean)
+writes `inter := []` at a dispatch instead.  The two agree on everything that is emitted. -/
+
+section Stale
+open VaxisModel.Model.ParserTable VaxisModel.Model.Parser VaxisModel.Lemmas.ParserStale
+
+/-- **Whatever `p.intermediate` holds after a dispatch is never seen.**  From the states in which a
+    dispatch leaves the parser (`ground`; `dcsPassthrough` after `hook`), for any stale contents `x` of
+    `p.intermediate` and any further input (runes, end of input): the items emitted and the point
+    where the loop stops are those of the run with `p.intermediate` empty — every path to a statement
+    that reads or appends to it goes through the `clear()` of an ESC. -/
+theorem stale_intermediate_unobservable (s : PState) (hd : s.state = .ground ∨ s.state = .dcsPassthrough)
+    (x : List Rune) (is : List Inp) :
+    (runWith handTable { s with inter := x } is).2 = (runWith handTable s is).2 :=
+  (runWith_stale is s _ (Or.inl ⟨hd, x, rfl⟩)).1
+
+-- a stale `,` in p.intermediate, then `A ESC # 8 ESC [ ? 1 h`: the same items as with an empty slice
+example : (runWith handTable { PState.init with inter := [0x2C] }
+      [.rune 0x41, .rune 0x1B, .rune 0x23, .rune 0x38, .rune 0x1B, .rune 0x5B, .rune 0x3F, .rune 0x31, .rune 0x68, .eof]).2 =
+    ([.print 0x41, .esc [0x23] 0x38, .csi [0x3F] [[1]] 0x68], true) := by decide
+
+/-- … and those are the states a dispatch leaves the parser in: in every state function, every arm
+    that contains `escapeDispatch`, `csiDispatch` or `hook` returns `ground` or `dcsPassthrough` (also
+    through its early `return`). -/
+theorem dispatch_leaves_intermediate_dead (st : StateId) (r : Nat)
+    (h : ((handFn st).row (.rune r)).1.any isDispatch = true) :
+    (((handFn st).row (.rune r)).2 = .st .ground ∨ ((handFn st).row (.rune r)).2 = .st .dcsPassthrough) ∧
+    retTargetsDead ((handFn st).row (.rune r)).1 = true := by
+  have := dispatch_rows st r
+  simp only [dispatchRowOk, h, Bool.not_true, Bool.false_or, Bool.and_eq_true, Bool.or_eq_true, beq_iff_eq] at this
+  exact this
+
+example : ((handFn .csiParam).row (.rune 0x6D)).1.any isDispatch = true := by decide
+
+end Stale
 
 end VaxisModel.Props.C08Pools
